@@ -121,6 +121,7 @@ def run_histories(tier, seed, tofu_modes=(True, False)):
     fp_of = {c["der"]: c["fp"] for c in cs}
     tmp = scratch_dir("nv-c03-")
     records = []
+    store_ops = []
     try:
         nh = 400 if tier == "quick" else 5000
         length = 8 if tier == "quick" else 12
@@ -135,8 +136,16 @@ def run_histories(tier, seed, tofu_modes=(True, False)):
                 client = clients[tofu]
                 db = TOFUDatabase(path)
                 if tofu: client.tofu_db = db
-                for _ in range(length):
-                    st = gen_step(rng, cs)
+                # a third of the histories start with the same host pinned on two ports with different certificates and
+                # one of the pins then renewed: "pins of different host:port pairs never influence each other"
+                preamble = []
+                if rng.random() < 0.33:
+                    i, j, k2 = rng.sample(range(len(cs)), 3)
+                    preamble = [("trust", "a.example", 1965, i), ("trust", "a.example", 1966, j),
+                                (rng.choice(["trust", "external_trust", "import"]), "a.example", rng.choice([1965, 1966]), k2) + ((True,) if False else ())]
+                    if preamble[2][0] == "import": preamble[2] = ("import", preamble[2][1], preamble[2][2], k2, True)
+                for step_no in range(length):
+                    st = preamble[step_no] if step_no < len(preamble) else gen_step(rng, cs)
                     before = read_rows(path)
                     if st[0] == "call":
                         _, op, host, port, der, resp, exc, content, token = st
@@ -163,11 +172,38 @@ def run_histories(tier, seed, tofu_modes=(True, False)):
                         TOFUDatabase(path).trust(st[1][1:-1] if st[1].startswith("[") else st[1], st[2], cs[st[3]]["cert"])
                     elif st[0] == "external_revoke":
                         TOFUDatabase(path).revoke(st[1][1:-1] if st[1].startswith("[") else st[1], st[2])
+                    if st[0] != "call":
+                        # trust-store operations are judged too: exactly the named pin changes
+                        after = read_rows(path)
+                        hh = st[1][1:-1] if len(st) > 1 and st[1].startswith("[") else (st[1] if len(st) > 1 else None)
+                        others = lambda rows: [r for r in rows if not (r[0] == hh and r[1] == st[2])] if len(st) > 2 else rows
+                        if st[0] in ("trust", "external_trust") or (st[0] == "import" and st[4]):
+                            want = sorted(others(before) + [[hh, st[2], cs[st[3]]["fp"], "T"]], key=lambda r: (r[0], r[1]))
+                        elif st[0] == "import":
+                            want = [[hh, st[2], cs[st[3]]["fp"], "T"]]
+                        elif st[0] in ("revoke", "external_revoke"):
+                            want = others(before)
+                        else:
+                            want = []
+                        store_ops.append({"op": st[0], "args": [str(x) for x in st[1:3]], "before": before, "after": after, "want": want, "tofu": tofu})
                 path.unlink()
         asyncio.run(go())
     finally:
         shutil.rmtree(tmp, ignore_errors=True)
+    STORE_OPS[:] = store_ops
     return records
+
+STORE_OPS = []
+
+def judge_store_ops(res):
+    for o in STORE_OPS:
+        res.evaluations += 1
+        res.count("store-op:%s" % o["op"])
+        res.nontriv(("store-op", o["op"], str(o["args"]), str(o["before"])))
+        if o["after"] != o["want"]:
+            res.violations.append({"clause": "a trust-store operation changes exactly the pin it names", "signature": "C03:store-op:" + o["op"],
+                                   "case": {"operation": o["op"], "host_port": o["args"], "store_before": o["before"]},
+                                   "trace": {"store_after": o["after"], "expected": o["want"]}})
 
 def judge(records, res, pid, monitors):
     mcases, iobs = [], []
@@ -220,4 +256,6 @@ def run(tier, seed):
                 "interleaved with trust / revoke / clear, TOFU on and off; non-trivial = distinct (store, host:port, presented, operation)")
     recs = run_histories(tier, seed)
     judge(recs, res, "C03", ["C03.ok"])
+    judge_store_ops(res)
+    res.rule += " | every trust / revoke / clear / import step is judged as well: exactly the named pin changes (a third of the histories start with one host pinned on two ports and one pin renewed)"
     return res
